@@ -12,6 +12,7 @@ from sa.rules import common
 from sa.rules.common import MAIN
 from sa.util import (
     all_paths_pass,
+    forward_taint,
     describe_path,
     enum_member,
     func_key,
@@ -31,7 +32,7 @@ EXPLANATION = (
     "error flag and leaves the loop; R19d the error flag is read on every path from discovery to a process exit and "
     "the listing is not printed after an error; R19e scan, fix, --list-files and the API share the one discovery "
     "function (glob/os.walk/os.listdir are called nowhere else for documents); R19f an empty selection ends in "
-    "NO_FILES_TO_SCAN. Not decided: the semantics of glob.glob / os.walk themselves, extension case rules."
+    "NO_FILES_TO_SCAN; R19g an argument is expanded as a glob exactly when it contains '*' or '?', as the user guide says. Not decided: the semantics of glob.glob / os.walk themselves, extension case rules."
 )
 ASSUMPTIONS = ["glob.glob, os.walk, os.path.isfile behave as documented"]
 
@@ -42,9 +43,21 @@ def discovery_set(prog: Program) -> Tuple[FuncInfo, str]:
     func = prog.method(AFS, "determine_files_to_scan")
     env = prog.env_of(func)
     sets = [name for name, typ in env.items() if typ and typ[0] == "set" and name not in func.params]
-    if len(sets) != 1:
-        raise AnalysisError(f"determine_files_to_scan: expected one local set of files, found {sets}")
-    return func, sets[0]
+    if len(sets) == 1:
+        return func, sets[0]
+    # several local sets: the discovery set is the one whose elements are returned
+    returned = set()
+    for ret in returns_of(func):
+        first = ret.elts[0] if isinstance(ret, ast.Tuple) and ret.elts else ret
+        exprs = [first]
+        if isinstance(first, ast.Name):
+            exprs = [n.value for n in walk_local(func.node) if isinstance(n, ast.Assign) and any(isinstance(t, ast.Name) and t.id == first.id for t in n.targets)]
+        for expr in exprs:
+            returned |= {n.id for n in ast.walk(expr) if isinstance(n, ast.Name)}
+    candidates = [name for name in sets if name in returned]
+    if len(candidates) != 1:
+        raise AnalysisError(f"determine_files_to_scan: cannot identify the set of discovered files among {sets}")
+    return func, candidates[0]
 
 
 def r19a(ctx: Context) -> None:
@@ -110,8 +123,11 @@ def r19b(ctx: Context) -> None:
     # adds
     scanner = prog.cls(AFS)
     adds = 0
+    # the discovery set and the parameters it is passed for
+    root_func, root_set = discovery_set(prog)
+    carriers = forward_taint(prog, [(root_func, root_set)], any_expression=False)
     for func in scanner.methods.values():
-        set_params = [name for name, typ in prog.env_of(func).items() if typ and typ[0] == "set"]
+        set_params = sorted(carriers.get(func.qualname, set()))
         for node in walk_local(func.node):
             if not (isinstance(node, ast.Call) and isinstance(node.func, ast.Attribute) and node.func.attr in ("add", "update") and isinstance(node.func.value, ast.Name) and node.func.value.id in set_params):
                 continue
@@ -303,6 +319,48 @@ def r19f(ctx: Context) -> None:
         rule.fail(key, where(chain), f"'{files_param}' is never tested: arguments that select no file (an empty directory) end as SUCCESS instead of NO_FILES_TO_SCAN, while --list-files on the same arguments ends as NO_FILES_TO_SCAN")
 
 
+def r19g(ctx: Context) -> None:
+    prog = ctx.prog
+    rule = ctx.rule("R19g", "an argument is a glob exactly when it contains '*' or '?' (as documented)", 1)
+    func = prog.method(AFS, "determine_files_to_scan")
+    doc = prog.source.read("newdocs/src/user-guide.md")
+    documented = set()
+    for line_index, line in enumerate(doc.split("\n")):
+        if "character" in line and "glob" in " ".join(doc.split("\n")[line_index: line_index + 3]).lower():
+            for token in ("`?`", "`*`", "`[`"):
+                if token in line:
+                    documented.add(token.strip("`"))
+    if documented != {"*", "?"}:
+        raise AnalysisError(f"user guide: documented glob characters not recognised ({sorted(documented)})")
+    sites = [s for s in prog.sites_in(func) if s.external in ("glob.glob", "glob.iglob")]
+    if not sites:
+        raise AnalysisError("determine_files_to_scan no longer expands globs")
+    for site in sites:
+        tests = [t for t, p in guards_of(func.node, site.node) if p]
+        # the enclosing if-test (before decomposition) decides the branch: collect the characters it looks for
+        branch = None
+        for node in walk_local(func.node):
+            if isinstance(node, ast.If) and any(sub is site.node for stmt in node.body for sub in ast.walk(stmt)):
+                if branch is None or any(sub is node for sub in ast.walk(branch)):
+                    branch = node
+        key = func_key(func, site.node) + " [glob trigger]"
+        if branch is None:
+            rule.fail(key, site.where, "every path argument is expanded as a glob: a literal name containing glob characters can no longer be named")
+            continue
+        chars = set()
+        exact = True
+        operands = branch.test.values if isinstance(branch.test, ast.BoolOp) and isinstance(branch.test.op, ast.Or) else [branch.test]
+        for operand in operands:
+            if isinstance(operand, ast.Compare) and len(operand.ops) == 1 and isinstance(operand.ops[0], ast.In) and isinstance(operand.left, ast.Constant) and isinstance(operand.left.value, str):
+                chars.add(operand.left.value)
+            else:
+                exact = False
+        if exact and chars == documented:
+            rule.ok(key, "'*' in path or '?' in path")
+        else:
+            rule.fail(key, where(func, branch), f"a path argument is treated as a glob when '{norm(branch.test)[:80]}': the documented rule is 'contains * or ?', so literal names (for example with '[') are expanded as patterns or rejected as unmatched globs")
+
+
 def run(ctx: Context) -> None:
     r19a(ctx)
     r19b(ctx)
@@ -311,3 +369,4 @@ def run(ctx: Context) -> None:
     r19d_listing(ctx)
     r19e(ctx)
     r19f(ctx)
+    r19g(ctx)
